@@ -207,7 +207,8 @@ static void describe(char *buf, size_t cap, int op, int si, int mi, int di) { sn
 static void run_geometries(int op, int si, int mi, int di, int full, const pixman_transform_t *xf, int filter, int repeat, int xf_on_mask, const char *xfdesc)
 {
     /* geometry list */
-    struct { int w, h, dx, sx, mx; } G[4096]; int ng = 0;
+    struct { int w, h, dx, sx, mx, sy, my; } G[4096]; int ng = 0;
+    memset(G, 0, sizeof G);
     const int *W = full ? W_ALL : W_QUICK; int nW = full ? (int)(sizeof W_ALL / sizeof W_ALL[0]) : (int)(sizeof W_QUICK / sizeof W_QUICK[0]);
     if (full == 2) {         /* loop-structure alphabet: every width x every destination alignment x source offsets */
         for (int wi = 0; wi < nW; wi++) for (int dx = 0; dx < 8; dx++) for (int sxi = 0; sxi < 3; sxi++) {
@@ -233,6 +234,8 @@ static void run_geometries(int op, int si, int mi, int di, int full, const pixma
             /* equal offsets select the library's 'pixbuf' pseudo-formats; unequal offsets must NOT (every other geometry) */
             for (int g = 0; g < ng; g += 2) G[g].mx = G[g].sx;
             for (int g = 1; g < ng; g += 2) if (G[g].mx == G[g].sx) G[g].mx = G[g].sx + 2;
+            /* ... in both directions: every combination of source and mask origins in {0,1}^4 (only equal origins are a pixbuf) */
+            for (int q = 0; q < 16 && ng < 4090; q++) { G[ng].w = 33; G[ng].h = 2; G[ng].dx = q & 3; G[ng].sx = q & 1; G[ng].sy = q >> 1 & 1; G[ng].mx = q >> 2 & 1; G[ng].my = q >> 3 & 1; ng++; }
         } else if (MASK[mi].kind >= 0) { imgkind_t mk = { MASK[mi].name, MASK[mi].fmt, MASK[mi].kind }; m = make_img(&mk, 0, IMGW, IMGH, variant ? 8 : 0, !variant, 5 + variant); if (MASK[mi].ca) pixman_image_set_component_alpha(m.img, 1); }
         himg_t d = make_img(&DST[di], 0, IMGW, IMGH, variant ? 4 : 0, variant, 9);
         if (!s.img || !d.img) { free_img(&s); free_img(&m); free_img(&d); return; }
@@ -274,7 +277,7 @@ static void run_geometries(int op, int si, int mi, int di, int full, const pixma
             ph_set_cfg(cfg);
             for (int g = 0; g < ng; g++) {
                 memcpy(d.buf, d0, d.size);
-                pixman_image_composite32(op, s.img, m.img, d.img, G[g].sx, 0, G[g].mx, 0, G[g].dx, 0, G[g].w, G[g].h);
+                pixman_image_composite32(op, s.img, m.img, d.img, G[g].sx, G[g].sy, G[g].mx, G[g].my, G[g].dx, 0, G[g].w, G[g].h);
                 if (undef32) {
                     /* the value written into an 'x' channel is undefined: not compared (row padding still is) */
                     for (int yy = 0; yy < IMGH; yy++) {
@@ -286,8 +289,8 @@ static void run_geometries(int op, int si, int mi, int di, int full, const pixma
                 else if (memcmp(ref + (size_t)g * d.size, d.buf, d.size)) {
                     size_t off = 0; while (off < d.size && ref[(size_t)g * d.size + off] == ((uint8_t *)d.buf)[off]) off++;
                     describe(desc, sizeof desc, op, si, mi, di);
-                    vf_violation("c02-impl-differs", "%s %s variant=%d w=%d h=%d dest_x=%d src_x=%d mask_x=%d: PIXMAN_DISABLE=[%s] differs from the general path at byte %zu (row %zu, byte-in-row %zu): %02x vs %02x",
-                                 desc, xfdesc, variant, G[g].w, G[g].h, G[g].dx, G[g].sx, G[g].mx, ph_cfg_name(cfg, cfgn, sizeof cfgn), off, off / d.stride, off % d.stride,
+                    vf_violation("c02-impl-differs", "%s %s variant=%d w=%d h=%d dest_x=%d src=(%d,%d) mask=(%d,%d): PIXMAN_DISABLE=[%s] differs from the general path at byte %zu (row %zu, byte-in-row %zu): %02x vs %02x",
+                                 desc, xfdesc, variant, G[g].w, G[g].h, G[g].dx, G[g].sx, G[g].sy, G[g].mx, G[g].my, ph_cfg_name(cfg, cfgn, sizeof cfgn), off, off / d.stride, off % d.stride,
                                  ((uint8_t *)d.buf)[off], ref[(size_t)g * d.size + off]);
                     break;
                 }
